@@ -38,6 +38,10 @@ pub struct StatusPlan {
     /// the child is started in a process group of its own
     #[serde(default)]
     pub setpgid: bool,
+    /// the Popen is handed to another thread (it is Send) and all queries are made there,
+    /// while the thread that started the child lives on
+    #[serde(default)]
+    pub other_thread: bool,
 }
 
 const DAY: u64 = 86_400 * 1_000_000_000;
@@ -166,6 +170,7 @@ pub fn generate(prop: &str, rng: &mut Rng, plan: &mut Plan, index: u64) {
         }
     }
     sp.setpgid = rng.chance(1, 4);
+    sp.other_thread = rng.chance(1, 6);
     // a signal that cannot be delivered for once (EPERM): the child is still the caller's to signal later
     if prop != "C11" && rng.chance(1, 8) {
         plan.knobs.faults.kill_fail = Some((1 + rng.below(2) as u32, libc::EPERM));
@@ -272,10 +277,10 @@ fn class(s: ExitStatus) -> &'static str {
 }
 
 pub fn run(plan: &Plan, sp: &StatusPlan) -> FamOut {
-    let cost = plan.knobs.cost_ns;
+    let _cost = plan.knobs.cost_ns;
     let cfg = PopenConfig { detached: sp.detached, setpgid: sp.setpgid, ..Default::default() };
     let r = lib("Popen::create", || Popen::create(&["/bin/child"], cfg));
-    let mut p = match r {
+    let p = match r {
         Ok(Ok(p)) => p,
         Ok(Err(e)) => {
             violate("spawn_failed", format!("spawn_failed/{:?}", e), format!("Popen::create failed: {:?}", e));
@@ -286,6 +291,25 @@ pub fn run(plan: &Plan, sp: &StatusPlan) -> FamOut {
             return FamOut { nontrivial: false };
         }
     };
+    if sp.other_thread {
+        let (plan2, sp2) = (plan.clone(), sp.clone());
+        let out = std::sync::Arc::new(std::sync::Mutex::new(None));
+        let out2 = out.clone();
+        let (u, h) = crate::simrt::spawn(move || {
+            let r = run_ops(&plan2, &sp2, p);
+            *out2.lock().unwrap() = Some(r);
+        });
+        crate::simrt::join(u);
+        crate::runner::stash_handles(vec![h]);
+        sim().k.probe("status_queried_from_another_thread");
+        let r = out.lock().unwrap().take();
+        return r.unwrap_or(FamOut { nontrivial: false });
+    }
+    run_ops(plan, sp, p)
+}
+
+fn run_ops(plan: &Plan, sp: &StatusPlan, mut p: Popen) -> FamOut {
+    let cost = plan.knobs.cost_ns;
     let pid = sim().k.child_by_spawn(0).map(|c| c.pid).unwrap_or(-1);
     let mut st = St { pid, observed: None, observed_seq: 0, nontrivial: false };
     for (i, op) in sp.ops.iter().enumerate() {
